@@ -28,6 +28,9 @@ class C06(Check):
         "term_image.image.common:ImageIterator._animate",
         "term_image.image.iterm2:ITerm2Image._display_animated",
         "term_image.image.kitty:KittyImage._display_animated",
+        "term_image.image.kitty:KittyImage._clear_frame",
+        "term_image.image.kitty:KittyImage.clear",
+        "term_image.image.kitty:KittyImage._render_image",
     ]
     explanation = (
         "The real Renderable.draw/_animate_/_init_render_ (with the real RenderIterator and Padding) and the real BaseImage.draw/"
@@ -64,6 +67,15 @@ class C06(Check):
                         if api == "new" and n <= 2:
                             # exact (per-side) padding instead of the aligned kind
                             out.append({"api": api, "h": h, "dv": dv, "frames": n, "loops": n, "pad": "exact"})
+        # old API: a padding height smaller than the render height (it then has no effect on that axis)
+        for h in [x for x in b["heights"] if x >= 2]:
+            for n in (1, 2):
+                out.append({"api": "old", "h": h, "dv": -1, "frames": n, "loops": 1})
+        # per-frame clearing of the kitty graphics style (real renderer, real clearing hooks), per terminal version
+        for version in ([0, 24, 0], [0, 25, 0], [0, 25, 1], [0, 30, 0]):
+            for method in ("lines", "whole"):
+                for h in ((1, 2) if tier == "quick" else (1, 2, 3)):
+                    out.append({"api": "old", "part": "kitty_clearing", "version": version, "method": method, "h": h, "frames": 2, "loops": 2 if h == 1 else 1})
         return out
 
     def setup(self, shape, concrete):
@@ -177,10 +189,11 @@ class C06(Check):
         scroll = bool(eng.bool("scroll"))
         aw = core.sym_if(pw > 0, pw, core.sym_if(W + pw > 1, W + pw, 1))
         Wp = core.sym_if(aw > w, aw, w)
-        Hp = ph
+        Hp = max(ph, h)  # a padding height below the render height has no effect
         padw = Wp - w
         left = {"<": 0, ">": padw}.get(ha, padw // 2)
-        top = {"^": 0, "_": shape["dv"]}.get(va, shape["dv"] // 2)
+        dv_eff = max(shape["dv"], 0)
+        top = {"^": 0, "_": dv_eff}.get(va, dv_eff // 2)
         # documented rules: pad_width must not exceed the terminal width (ValueError); for animations pad_height must not
         # exceed the terminal height; image size validated when check_size (height unless scroll) or always for animations
         must_value_error = sym_or(pw > W, sym_and(animated, ph > H))
@@ -195,8 +208,84 @@ class C06(Check):
         return dict(w=w, h=h, Wp=Wp, Hp=Hp, left=left, top=top, rejected=rejected, must_value_error=must_value_error, must_size_error=must_size_error,
                     n_frames=n, fits_w=Wp <= W)
 
+    # ------------------------------------------------------- kitty clearing
+    def kitty_clearing(self, eng, shape):
+        """An animation drawn with the kitty style: real KittyImage.draw / _display_animated / _clear_frame / clear /
+        _render_image / ImageIterator.  After draw() returns, the placements of the last frame - and only those - must
+        still be on the terminal (every earlier frame deleted by z-index or at the cursor, depending on the version)."""
+        from term_image.image import KittyImage, kitty
+
+        from . import common_render as cr
+
+        common = self.common
+        W, H, y0, px, py = dc.screen(eng)
+        h, n, loops = shape["h"], shape["frames"], shape["loops"]
+        w = eng.int("render_w", 1, 1 << 10)
+        eng.assume(sym_and(w <= W, y0 + h < H))
+        tsize = dc.TS((W, H))
+        common.get_terminal_size = lambda: tsize
+        common.time = type("time", (), {"sleep": staticmethod(lambda s: None), "time": staticmethod(lambda: 0.0)})
+        KittyImage._supported = True
+        KittyImage._KITTY_VERSION = tuple(shape["version"])
+        cs = (2, 3)
+        common.get_cell_size = lambda: cs
+        kitty.standard_b64encode = cr.b64_stub(eng)
+        kitty.compress = cr.compress_stub(eng, 3000)  # one chunk per transmission: chunking is C03's subject
+        eng.registry = cr.Registry()
+        kitty._stdout_write = lambda s_: sys.stdout.write(s_)
+        img = KittyImage(self.PIL.new("RGB", (1, 1)), width=1, height=1)
+        img._size = (w, h)
+        img._original_size = (eng.int("ori_w", 1, 1 << 10), eng.int("ori_h", 1, 1 << 10))
+        img._is_animated, img._n_frames, img._frame_duration, img._seek_position = True, n, 0.1, 0
+
+        class Src:
+            mode = "RGB"
+
+            def seek(s_, k):
+                pass
+
+            def close(s_):
+                pass
+
+        img._source = Src()
+
+        def get_render_data(self_, im, alpha, *, size=None, pixel_data=True, round_alpha=False, frame=False):
+            if self_._seek_position >= n:
+                raise EOFError
+            ww, hh = size
+            eng.assume(ww * hh * 3 <= 3000)
+            return (cr.FakeImg(eng, "RGB", (ww, hh), f"frame{self_._seek_position}"), None, None)
+
+        type(img)._get_render_data = get_render_data
+        stream = dc.Stream(eng, True)
+        old = sys.stdout
+        sys.stdout = stream
+        try:
+            img.draw("<", w, "^", h, None, repeat=loops, cached=bool(eng.bool("cached")), check_size=False, method=shape["method"])
+        finally:
+            sys.stdout = old
+        eng.reachable()
+        t = dc.run_term(W, H, y0, px, py, stream.delivered).finish()
+        from .common_render import claim_events
+
+        claim_events(eng, t)
+        per_frame = h if shape["method"] == "lines" else 1
+        total = n * loops * per_frame
+        eng.claim("kitty animation: every frame is transmitted and placed (frames x loops x placements per frame)", len(t.placements) == total)
+        if len(t.placements) != total:
+            return
+        stale = [t.survives(i) for i in range(total - per_frame)]
+        eng.claim("kitty animation: after draw() only the last frame is on the terminal - every earlier frame's placements were deleted (by z-index or at the cursor)",
+                  z3.Not(z3.Or(*stale)) if stale else True)
+        eng.claim("kitty animation: the last frame's placements are still on the terminal", z3.And(*[t.survives(i) for i in range(total - per_frame, total)]))
+        first, last = t.placements[0], t.placements[total - per_frame]
+        eng.claim("kitty animation: the last frame is placed where the first one was", z3.And(last["col"] == first["col"], last["row"] == first["row"], last["cols"] == first["cols"]))
+        eng.observe("placements", len(t.placements))
+
     # ------------------------------------------------------------------ body
     def body(self, eng, shape):
+        if shape.get("part") == "kitty_clearing":
+            return self.kitty_clearing(eng, shape)
         W, H, y0, px, py = dc.screen(eng)
         tty = bool(eng.bool("stdout_is_a_tty"))
         stream = dc.Stream(eng, tty)
